@@ -304,6 +304,49 @@ def length_pairing(prog):
     return pairing
 
 
+@rule('W6', props=['C03', 'C04', 'C05', 'C09', 'C10', 'C16', 'C06', 'C01', 'C17'], floor={'all': 40, 'default': 30}, configs=('all', 'default'))
+def w6_scalars_forwarded_unchanged(prog):
+    """Recursion of a registry walk into the tail of the registry hands every scalar (usize) parameter of the
+    step — the row count(s) `length`/`length_a`/`length_b`, `index`, `capacity`, `additional` — to the
+    tail step unchanged and in its own position: all columns of one archetype share one length, so a step that
+    forwards a modified or different count makes every later column be rebuilt, freed or compared with the wrong
+    length. The only scalar that may change is the element counter `current_index` of the row/column
+    deserialisers (+1 when this component was read)."""
+    r = Result()
+    for fn, imp in walk_fns(prog):
+        it, paths = traces(prog, fn)
+        key = fn_key(fn, imp)
+        body = fn.body
+        scal = [i for i in range(1, body.argc + 1) if body.local_ty(i).get('name') == 'usize']
+        if not scal:
+            continue
+        seen = False
+        reported = set()
+        for p in paths:
+            if p.ended != 'return':
+                continue
+            for e in p.events:
+                if e['k'] != 'tail' or e.get('delegate'):
+                    continue
+                seen = True
+                for i in scal:
+                    if i - 1 >= len(e['args']):
+                        continue
+                    a = e['args'][i - 1]
+                    nm = body.local_name(i) or '_%d' % i
+                    if a[0] == 'param' and a[1] == i:
+                        continue
+                    if nm == 'current_index' and a[0] == 'binop' and a[1] == 'Add' and {a[2], a[3]} == {('param', i, nm), ('const', 1)}:
+                        continue
+                    if nm not in reported:
+                        reported.add(nm)
+                        r.viol('W6', '%s/scalar-not-forwarded/%s' % (key, nm), fn.loc(e['ln']),
+                               'the tail step receives %s for `%s` instead of this step\'s own `%s`: the remaining columns are handled with a different count' % (absint.describe(a) if hasattr(absint, 'describe') else a[0], nm, nm), tag=fn.name)
+        if seen:
+            r.inst(key, tag=fn.name)
+    return r
+
+
 @rule('W5', props=['C03', 'C04', 'C05', 'C09', 'C10', 'C16', 'C06'], floor={'all': 30, 'default': 23}, configs=('all', 'default'))
 def w5_length_provenance(prog):
     """Every Vec/slice rebuilt from column 0 uses, as its length, the step's own length parameter that
